@@ -90,7 +90,7 @@ func c30SelfTest() error {
 // c30Stream describes one aws-chunked body.
 type c30Stream struct {
 	Mode     string // one of the c30Mode* constants
-	Algo     string // trailer checksum algorithm ("" = no trailer; only legal for c30ModeSigned)
+	Algo     string // trailer checksum algorithm ("" = no trailer; only legal for c30ModeSigned / c30ModeECDSA)
 	Payload  []byte
 	Schedule []int // chunk sizes; the last entry repeats until the payload is consumed
 	// signing context (ignored for the unsigned mode)
@@ -103,7 +103,39 @@ type c30Piece struct {
 	Text []byte
 }
 
-func (s *c30Stream) scope() string { return s.Date + "/" + s.Region + "/s3/aws4_request" }
+func (s *c30Stream) scope() string {
+	if c30IsV4a(s.Mode) {
+		return s.Date + "/s3/aws4_request"
+	}
+	return s.Date + "/" + s.Region + "/s3/aws4_request"
+}
+
+func (s *c30Stream) hasTrailer() bool      { return s.Mode != c30ModeSigned && s.Mode != c30ModeECDSA }
+func (s *c30Stream) signedTrailer() bool   { return s.Mode == c30ModeSignedTrailer || s.Mode == c30ModeECDSATrailer }
+func (s *c30Stream) algorithmName() string {
+	if c30IsV4a(s.Mode) {
+		return c30V4aAlgorithm
+	}
+	return "AWS4-HMAC-SHA256"
+}
+
+// sign returns the signature as written on the wire and as chained into the next string to sign.
+func (s *c30Stream) sign(key []byte, sts string) (wire, chain string) {
+	if c30IsV4a(s.Mode) {
+		sig := c30V4aSign(sts)
+		return c30V4aPad(sig), sig
+	}
+	sig := hex.EncodeToString(c30HMAC(key, sts))
+	return sig, sig
+}
+
+// check verifies a signature read from the wire; chain is what the next string to sign uses.
+func (s *c30Stream) check(key []byte, sts, wire string) (ok bool, chain string) {
+	if c30IsV4a(s.Mode) {
+		return c30V4aVerify(sts, wire), strings.TrimRight(wire, "*")
+	}
+	return hex.EncodeToString(c30HMAC(key, sts)) == wire, wire
+}
 
 // c30Chunks splits the payload following the schedule.
 func c30Chunks(payload []byte, schedule []int) [][]byte {
@@ -138,11 +170,11 @@ func (s *c30Stream) Encode() []c30Piece {
 	chunk := func(data []byte) {
 		add("size", strconv.FormatInt(int64(len(data)), 16))
 		if signed {
-			sts := "AWS4-HMAC-SHA256-PAYLOAD\n" + s.AmzDate + "\n" + s.scope() + "\n" + prev + "\n" + emptyHash + "\n" + c30SHA256Hex(data)
-			sig := hex.EncodeToString(c30HMAC(key, sts))
+			sts := s.algorithmName() + "-PAYLOAD\n" + s.AmzDate + "\n" + s.scope() + "\n" + prev + "\n" + emptyHash + "\n" + c30SHA256Hex(data)
+			sig, chain := s.sign(key, sts)
 			add("sigkw", ";chunk-signature=")
 			add("sig", sig)
-			prev = sig
+			prev = chain
 		}
 		add("crlf", "\r\n")
 		if len(data) > 0 {
@@ -154,7 +186,7 @@ func (s *c30Stream) Encode() []c30Piece {
 		chunk(c)
 	}
 	chunk(nil) // final zero-length chunk
-	if s.Mode == c30ModeSigned {
+	if !s.hasTrailer() {
 		add("crlf", "\r\n")
 		return ps
 	}
@@ -164,10 +196,11 @@ func (s *c30Stream) Encode() []c30Piece {
 	add("tname", name+":")
 	add("tvalue", value)
 	add("crlf", "\r\n")
-	if s.Mode == c30ModeSignedTrailer {
-		sts := "AWS4-HMAC-SHA256-TRAILER\n" + s.AmzDate + "\n" + s.scope() + "\n" + prev + "\n" + c30SHA256Hex([]byte(name+":"+value+"\n"))
+	if s.signedTrailer() {
+		sts := s.algorithmName() + "-TRAILER\n" + s.AmzDate + "\n" + s.scope() + "\n" + prev + "\n" + c30SHA256Hex([]byte(name+":"+value+"\n"))
+		tsig, _ := s.sign(key, sts)
 		add("tsigname", "x-amz-trailer-signature:")
-		add("tsig", hex.EncodeToString(c30HMAC(key, sts)))
+		add("tsig", tsig)
 		add("crlf", "\r\n")
 	}
 	add("crlf", "\r\n")
@@ -231,12 +264,15 @@ func c30Decode(body []byte, s *c30Stream, verifySigs bool) ([]byte, error) {
 		data := rest[:n]
 		rest = rest[n:]
 		if signed && verifySigs {
-			sts := "AWS4-HMAC-SHA256-PAYLOAD\n" + s.AmzDate + "\n" + s.scope() + "\n" + prev + "\n" + emptyHash + "\n" + c30SHA256Hex(data)
-			if hex.EncodeToString(c30HMAC(key, sts)) != sig {
+			sts := s.algorithmName() + "-PAYLOAD\n" + s.AmzDate + "\n" + s.scope() + "\n" + prev + "\n" + emptyHash + "\n" + c30SHA256Hex(data)
+			ok, chain := s.check(key, sts, sig)
+			if !ok {
 				return nil, fmt.Errorf("chunk signature mismatch")
 			}
+			prev = chain
+		} else {
+			prev = sig
 		}
-		prev = sig
 		if n == 0 {
 			break
 		}
@@ -246,7 +282,7 @@ func c30Decode(body []byte, s *c30Stream, verifySigs bool) ([]byte, error) {
 		}
 		rest = rest[2:]
 	}
-	if s.Mode == c30ModeSigned {
+	if !s.hasTrailer() {
 		if string(rest) != "\r\n" {
 			return nil, fmt.Errorf("bad end of body %q", rest)
 		}
@@ -263,7 +299,7 @@ func c30Decode(body []byte, s *c30Stream, verifySigs bool) ([]byte, error) {
 	if strings.TrimSpace(value) != c30Checksum(s.Algo, payload) {
 		return nil, fmt.Errorf("trailer checksum mismatch")
 	}
-	if s.Mode == c30ModeSignedTrailer {
+	if s.signedTrailer() {
 		tl, err := line()
 		if err != nil {
 			return nil, err
@@ -273,8 +309,8 @@ func c30Decode(body []byte, s *c30Stream, verifySigs bool) ([]byte, error) {
 			return nil, fmt.Errorf("bad trailer signature line %q", tl)
 		}
 		if verifySigs {
-			sts := "AWS4-HMAC-SHA256-TRAILER\n" + s.AmzDate + "\n" + s.scope() + "\n" + prev + "\n" + c30SHA256Hex([]byte(l+"\n"))
-			if hex.EncodeToString(c30HMAC(key, sts)) != strings.TrimSpace(tsig) {
+			sts := s.algorithmName() + "-TRAILER\n" + s.AmzDate + "\n" + s.scope() + "\n" + prev + "\n" + c30SHA256Hex([]byte(l+"\n"))
+			if ok, _ := s.check(key, sts, strings.TrimSpace(tsig)); !ok {
 				return nil, fmt.Errorf("trailer signature mismatch")
 			}
 		}
